@@ -268,6 +268,15 @@ class Normalizer:
                 return Form(f.r, f.s, f.notes + ["abs-weakened"])
             if fn in POW_NAMES and len(e.args) == 2:
                 return self.form(ast.BinOp(left=e.args[0], op=ast.Pow(), right=e.args[1]))
+            # np.maximum(x, 0) / np.clip(x, 0, None): a clamp of a quantity that is non-negative in exact arithmetic (a count
+            # obtained by subtracting float sums) is the identity of the algebra; noted, like abs()
+            if fn == "np.maximum" and len(e.args) == 2 and not e.keywords and any(isinstance(a, ast.Constant) and a.value == 0 for a in e.args):
+                inner = e.args[1] if (isinstance(e.args[0], ast.Constant) and e.args[0].value == 0) else e.args[0]
+                f = self.form(inner)
+                return Form(f.r, f.s, f.notes + ["clamped-at-zero"])
+            if fn == "np.clip" and len(e.args) == 3 and not e.keywords and isinstance(e.args[1], ast.Constant) and e.args[1].value == 0 and isinstance(e.args[2], ast.Constant) and e.args[2].value is None:
+                f = self.form(e.args[0])
+                return Form(f.r, f.s, f.notes + ["clamped-at-zero"])
             if fn in ("np.divide", "np.true_divide") and len(e.args) == 2 and not e.keywords:
                 return self.form(e.args[0]).div(self.form(e.args[1]))
             if fn == "np.multiply" and len(e.args) == 2 and not e.keywords:
